@@ -5,10 +5,12 @@ import (
 	"fmt"
 	"math/rand"
 	"net"
+	"os"
 	"sort"
 	"strconv"
 	"strings"
 	"sync"
+	"sync/atomic"
 	"time"
 
 	"verif/harness/model"
@@ -22,7 +24,9 @@ func init() {
 var c12Hostile = []string{"", "0", "1", "-1", "2", "10", "9223372036854775807", "-9223372036854775808", "99999999999999999999", "1.5", "-inf", "nan",
 	"\r\n", "a\r\nb", "\x00", "x\x00y", "$-1", "*3", "+OK", "-ERR x", ":1",
 	"NX", "XX", "GT", "CH", "INCR", "WITHSCORES", "WITHVALUES", "LIMIT", "WEIGHTS", "AGGREGATE", "MIN", "MAX", "COUNT", "LEFT", "RIGHT", "BYSCORE", "BYLEX", "REV", "MATCH",
-	"EX", "PX", "PERSIST", "GET", "k", "k2", "key with spaces", "ünï", strings.Repeat("A", 9000), strings.Repeat("B", 70000)}
+	"EX", "PX", "PERSIST", "GET", "k", "k2", "key with spaces", "ünï",
+	"[a", "[", "\\", "{a,b", "*[!", "a\xffb", "\xe2\x82", "h?llo*", // malformed globs, invalid UTF-8
+	strings.Repeat("A", 9000), strings.Repeat("B", 70000)}
 
 type c12Server struct {
 	in   *Inst
@@ -124,6 +128,9 @@ func checkC12(ctx *Ctx) {
 			}
 		}
 		c.Close()
+		if !c12DeepProbe(ctx, srv, "hostile argument vectors for "+t.Command+" "+t.SubCommand) {
+			return
+		}
 	}
 	// (g) command and subcommand names that are themselves hostile (errors raised before any handler runs)
 	{
@@ -177,6 +184,19 @@ func checkC12(ctx *Ctx) {
 			}
 		}
 		c.Close()
+		if !c12DeepProbe(ctx, srv, "the name-echo lane") {
+			return
+		}
+	}
+	// (l) large pub/sub frames from several publishers to one subscriber that is also being answered
+	for i := 0; i < ctx.N(8, 64); i++ {
+		if !ctx.Mine(i + 5) {
+			continue
+		}
+		ctx.SetCurrent(fmt.Sprintf("C12 large pub/sub frames %d", i))
+		if !c12PubSubLarge(ctx, srv, i) || ctx.NReports() >= 4 {
+			return
+		}
 	}
 	// (k) stop-and-wait: a write that ends in the middle of the next command; the complete commands in it must
 	// be answered before anything more is sent. And pipelines in which (P)SUBSCRIBE confirmations, which the
@@ -247,6 +267,11 @@ func checkC12(ctx *Ctx) {
 		var wg sync.WaitGroup
 		ok := true
 		var mu sync.Mutex
+		stormStop := make(chan struct{})
+		stormDone := make(chan struct{})
+		go func() { c12AdminStorm(ctx, srv, stormStop); close(stormDone) }()
+		defer func() { <-stormDone }()
+		defer close(stormStop)
 		for g := 0; g < 32; g++ {
 			wg.Add(1)
 			go func(g int) {
@@ -264,6 +289,9 @@ func checkC12(ctx *Ctx) {
 		wg.Wait()
 		ctx.Class("concurrent|32-connections")
 		if !ok {
+			return
+		}
+		if !c12DeepProbe(ctx, srv, "32 pipelining connections and an admin storm") {
 			return
 		}
 	}
@@ -396,7 +424,7 @@ func isTimeout(err error) bool {
 	return errors.As(err, &ne) && ne.Timeout()
 }
 
-var c12Payloads = []string{"", "x", "a\r\nb", "\r\n", "nul\x00byte", "$5\r\nhello\r\n", "*1\r\n", "+OK\r\n", "ünï", strings.Repeat("0123456789", 900), strings.Repeat("x0123456789", 900), strings.Repeat("abcdefg", 10000), " lead", "trail "}
+var c12Payloads = []string{"a\xffb", "\xe2\x82", "caf\xc3", "\xff\xfe\xfd\xfc", "", "x", "a\r\nb", "\r\n", "nul\x00byte", "$5\r\nhello\r\n", "*1\r\n", "+OK\r\n", "ünï", strings.Repeat("0123456789", 900), strings.Repeat("x0123456789", 900), strings.Repeat("abcdefg", 10000), " lead", "trail "}
 
 // c12Pipeline: store payloads and read them back inside one pipelined (and possibly segmented) stream.
 func c12Pipeline(ctx *Ctx, srv *c12Server, i int) bool {
@@ -428,7 +456,14 @@ func c12Pipeline(ctx *Ctx, srv *c12Server, i int) bool {
 	hasCur := false
 	for len(cmds) < n {
 		p := c12Payloads[r.Intn(len(c12Payloads))]
-		switch r.Intn(8) {
+		switch r.Intn(9) {
+		case 8:
+			// a range read of whatever the string key holds: forward, backward (start after end), and windows
+			// that cut through multi-byte sequences; only the framing of the reply is decided here
+			if hasCur {
+				a, b := r.Intn(8)-2, r.Intn(8)-2
+				cmds = append(cmds, []string{pickStr(r, []string{"GETRANGE", "SUBSTR"}), key + ":s", strconv.Itoa(a), strconv.Itoa(b)})
+			}
 		case 0, 1:
 			cmds = append(cmds, []string{"SET", key + ":s", p})
 			cur, hasCur = p, true
@@ -762,4 +797,219 @@ func c12StopAndWait(ctx *Ctx, srv *c12Server, i int) bool {
 			Case: map[string]interface{}{"complete": n, "cut": cut}, Key: "c12|stop-and-wait|tail"})
 	}
 	return true
+}
+
+
+// c12DeepProbe: "other connections are unaffected" — after hostile input on one connection, a fresh pair of
+// connections must still be able to do what any client can do: a keyspace round trip, a subscription with a
+// delivery, an unsubscription, and PUBSUB introspection. (A PING alone does not notice, for example, a lock
+// of the pub/sub table that a panicking handler never released.) Watchdogs are the patient ones of Client.Do.
+func c12DeepProbe(ctx *Ctx, srv *c12Server, after string) bool {
+	fail := func(what string) bool {
+		ctx.Violate(Violation{Kind: "other_connections", Lane: "deep-probe", What: fmt.Sprintf("after %s: %s", trunc(after, 200), what),
+			Case: map[string]interface{}{"after": after}, Key: "c12|deep-probe|" + strings.SplitN(what, ":", 2)[0]})
+		return false
+	}
+	a, err := Dial(srv.port)
+	if err != nil {
+		return fail("a new connection could not be opened: " + err.Error())
+	}
+	defer a.Close()
+	b, err := Dial(srv.port)
+	if err != nil {
+		return fail("a new connection could not be opened: " + err.Error())
+	}
+	defer b.Close()
+	ctx.Count("deep_probes", 1)
+	ch := fmt.Sprintf("probe:ch:%d", os.Getpid())
+	if v, _, err := a.Do("SET", "probe:k", "v"); err != nil || v.IsError() {
+		return fail(fmt.Sprintf("SET on a new connection: %v %s", err, v.String()))
+	}
+	if v, _, err := a.Do("GET", "probe:k"); err != nil || v.IsError() {
+		return fail(fmt.Sprintf("GET on a new connection: %v %s", err, v.String()))
+	}
+	if v, _, err := a.Do("SUBSCRIBE", ch); err != nil || !v.IsSeq() {
+		return fail(fmt.Sprintf("SUBSCRIBE on a new connection: no confirmation (%v %s)", err, trunc(v.String(), 80)))
+	}
+	if v, _, err := b.Do("PUBLISH", ch, "hello"); err != nil || v.IsError() {
+		return fail(fmt.Sprintf("PUBLISH on a new connection: %v %s", err, v.String()))
+	}
+	if v, _, err := a.Read(80 * time.Second); err != nil || !strings.Contains(v.String(), "hello") {
+		return fail(fmt.Sprintf("delivery to a new subscriber: the published message did not arrive (%v %s)", err, trunc(v.String(), 80)))
+	}
+	if v, _, err := a.Do("UNSUBSCRIBE", ch); err != nil || !v.IsSeq() {
+		return fail(fmt.Sprintf("UNSUBSCRIBE on a new connection: %v %s", err, trunc(v.String(), 80)))
+	}
+	if v, _, err := b.Do("PUBSUB", "CHANNELS"); err != nil || !v.IsSeq() {
+		return fail(fmt.Sprintf("PUBSUB CHANNELS on a new connection: %v %s", err, trunc(v.String(), 80)))
+	}
+	if v, _, err := b.Do("PUBSUB", "NUMPAT"); err != nil || v.IsError() {
+		return fail(fmt.Sprintf("PUBSUB NUMPAT on a new connection: %v %s", err, trunc(v.String(), 80)))
+	}
+	b.Do("DEL", "probe:k")
+	return true
+}
+
+// c12PubSubLarge: one subscriber connection receives large messages (6 KB, larger than any single buffer
+// the server may use) from four publishers on four channels at once, while its own SUBSCRIBE / UNSUBSCRIBE
+// requests are being answered on the same socket. Every frame the subscriber receives must be well formed
+// (strict parser), every message must arrive exactly once, whole, and in its publisher's order.
+func c12PubSubLarge(ctx *Ctx, srv *c12Server, i int) bool {
+	sub, err := Dial(srv.port)
+	if err != nil {
+		ctx.Inconclusive("dial")
+		return true
+	}
+	defer sub.Close()
+	const nPub, nMsg = 4, 60
+	chans := make([]string, nPub)
+	for p := range chans {
+		chans[p] = fmt.Sprintf("big:%d:%d", i, p)
+	}
+	if err := sub.Send(resp.Encode(append([]string{"SUBSCRIBE"}, chans...)...)); err != nil {
+		return true
+	}
+	for k := 0; k < nPub; k++ {
+		if v, raw, err := sub.Read(80 * time.Second); err != nil || !v.IsSeq() {
+			ctx.Violate(Violation{Kind: "framing", Lane: "pubsub-large", What: fmt.Sprintf("SUBSCRIBE to %d channels: confirmation %d: %v %q", nPub, k, err, trunc(string(raw), 60)), Key: "c12|pubsub-large|confirm"})
+			return true
+		}
+	}
+	body := strings.Repeat("0123456789abcdef", 375) // 6000 bytes
+	var wg sync.WaitGroup
+	var pubErr atomic.Value
+	for p := 0; p < nPub; p++ {
+		wg.Add(1)
+		go func(p int) {
+			defer wg.Done()
+			c, err := Dial(srv.port)
+			if err != nil {
+				return
+			}
+			defer c.Close()
+			var stream []byte
+			for m := 0; m < nMsg; m++ {
+				payload := fmt.Sprintf("p%d-m%03d-", p, m)
+				if m%3 != 2 {
+					payload += body
+				}
+				stream = append(stream, resp.Encode("PUBLISH", chans[p], payload)...)
+			}
+			if err := c.Send(stream); err != nil {
+				pubErr.Store(err.Error())
+				return
+			}
+			for m := 0; m < nMsg; m++ {
+				if v, _, err := c.Read(80 * time.Second); err != nil || v.IsError() {
+					pubErr.Store(fmt.Sprintf("publisher %d reply %d: %v %s", p, m, err, v.String()))
+					return
+				}
+			}
+		}(p)
+	}
+	// the subscriber's own requests, answered on the same socket while deliveries are in flight
+	extra := fmt.Sprintf("big:%d:x", i)
+	churn := 12
+	go func() {
+		for k := 0; k < churn; k++ {
+			_ = sub.Send(resp.Encode("SUBSCRIBE", extra))
+			time.Sleep(300 * time.Microsecond)
+			_ = sub.Send(resp.Encode("UNSUBSCRIBE", extra))
+			time.Sleep(300 * time.Microsecond)
+		}
+	}()
+	next := make([]int, nPub)
+	got, confirms := 0, 0
+	for got < nPub*nMsg || confirms < 2*churn {
+		v, raw, err := sub.Read(80 * time.Second)
+		if err != nil {
+			what := fmt.Sprintf("after %d of %d messages and %d of %d confirmations the subscriber's stream is broken: %v (unparsed %q)", got, nPub*nMsg, confirms, 2*churn, err, trunc(string(raw), 80))
+			if pe, _ := pubErr.Load().(string); pe != "" {
+				what += "; " + pe
+			}
+			ctx.Violate(Violation{Kind: "framing", Lane: "pubsub-large", What: "one subscriber, four publishers of 6 KB messages, own requests on the same socket: " + what,
+				Case: map[string]interface{}{"publishers": nPub, "messages_each": nMsg}, Key: "c12|pubsub-large|framing"})
+			wg.Wait()
+			return srv.alive()
+		}
+		if !v.IsSeq() || len(v.Elems) == 0 {
+			ctx.Violate(Violation{Kind: "framing", Lane: "pubsub-large", What: "the subscriber received a frame that is neither a message nor a confirmation: " + trunc(v.String(), 120), Key: "c12|pubsub-large|frame"})
+			wg.Wait()
+			return true
+		}
+		kind, _ := v.Elems[0].Text()
+		if v.Elems[0].IsSeq() || strings.Contains(strings.ToLower(kind), "subscribe") {
+			confirms++ // subscribe confirmation or the nested unsubscribe reply
+			continue
+		}
+		if kind != "message" || len(v.Elems) != 3 {
+			ctx.Violate(Violation{Kind: "framing", Lane: "pubsub-large", What: "the subscriber received an unexpected frame: " + trunc(v.String(), 120), Key: "c12|pubsub-large|frame"})
+			wg.Wait()
+			return true
+		}
+		data, _ := v.Elems[2].Text()
+		var p, m int
+		if _, err := fmt.Sscanf(data, "p%d-m%03d-", &p, &m); err != nil || p < 0 || p >= nPub {
+			ctx.Violate(Violation{Kind: "payload", Lane: "pubsub-large", What: "the subscriber received a message nobody published: " + trunc(data, 60), Key: "c12|pubsub-large|spurious"})
+			wg.Wait()
+			return true
+		}
+		wantLen := len(fmt.Sprintf("p%d-m%03d-", p, m))
+		if m%3 != 2 {
+			wantLen += len(body)
+		}
+		if m != next[p] || len(data) != wantLen {
+			ctx.Violate(Violation{Kind: "payload", Lane: "pubsub-large", What: fmt.Sprintf("publisher %d: expected message %d of %d bytes next, received message %d of %d bytes (lost, duplicated, reordered or truncated)", p, next[p], wantLen, m, len(data)), Key: "c12|pubsub-large|order"})
+			wg.Wait()
+			return true
+		}
+		next[p]++
+		got++
+	}
+	wg.Wait()
+	ctx.Eval(1)
+	ctx.Count("pubsub_large_messages", int64(got))
+	ctx.Class("pubsub-large|4-publishers|6KB")
+	return true
+}
+
+// c12AdminStorm: connections that change connection-level state (SWAPDB of two databases nobody uses, SELECT,
+// HELLO) as fast as they can while others pipeline; every command must be answered and the process must live.
+func c12AdminStorm(ctx *Ctx, srv *c12Server, stop chan struct{}) {
+	roles := [][][]string{
+		{{"SWAPDB", "5", "6"}}, {{"SWAPDB", "6", "5"}},
+		{{"SELECT", "5"}, {"SET", "storm:k", "v"}, {"SELECT", "6"}, {"GET", "storm:k"}},
+		{{"HELLO", "3"}, {"PING"}, {"HELLO", "2"}, {"ECHO", "x"}},
+	}
+	var wg sync.WaitGroup
+	var n atomic.Int64
+	for ri, cmds := range roles {
+		wg.Add(1)
+		go func(ri int, cmds [][]string) {
+			defer wg.Done()
+			c, err := Dial(srv.port)
+			if err != nil {
+				return
+			}
+			defer c.Close()
+			for k := 0; ; k++ {
+				select {
+				case <-stop:
+					return
+				default:
+				}
+				argv := cmds[k%len(cmds)]
+				v, _, err := c.Do(argv...)
+				n.Add(1)
+				if err != nil || (v.IsError() && argv[0] != "HELLO") {
+					ctx.Violate(Violation{Kind: "reply", Lane: "admin-storm", What: fmt.Sprintf("%s while other connections pipeline and swap databases: %v %s", Step{Argv: argv}.String(), err, trunc(v.String(), 100)),
+						Case: map[string]interface{}{"argv": argv}, Key: "c12|admin-storm|" + strings.ToLower(argv[0])})
+					return
+				}
+			}
+		}(ri, cmds)
+	}
+	wg.Wait()
+	ctx.Count("admin_storm_commands", n.Load())
+	ctx.Class("concurrent|admin-storm")
 }
